@@ -473,6 +473,48 @@ fn value_sweep(e: &mut Eng, thorough: bool, budget: Budget) {
     });
 }
 
+/// Every ordered pair of units with exponents in [-60,60]^2 (14641^2 = 2.1e8 pairs): the equality
+/// helpers must agree with the exponents, products and quotients must add / subtract them.
+/// (Add/Sub/ordering panic exactly when assert_eq_assume_ok does, which is checked here too for the
+/// pairs the crate calls equal.)
+fn full_domain(e: &mut Eng, budget: Budget) {
+    if !cfg!(feature = "dimcheck") {
+        return;
+    }
+    let n: i64 = 121;
+    let total = (n * n) as u64;
+    par(e, total * total, 1 << 16, budget, |idx, e| {
+        let (ia, ib) = ((idx / total) as i64, (idx % total) as i64);
+        let a = ((ia / n - 60) as i32, (ia % n - 60) as i32);
+        let b = ((ib / n - 60) as i32, (ib % n - 60) as i32);
+        let (ua, ub) = (uq(a.0, a.1), uq(b.0, b.1));
+        e.executions += 1;
+        e.transitions += 3;
+        if ib == 0 {
+            e.states += total;
+        }
+        let same = a == b;
+        let said = ua.eq_assume_true(&ub);
+        if said != same || ua.eq_assume_false(&ub) != same {
+            e.violation("units:equality", 1, || format!("{:?} vs {:?}: eq_assume_true = {}, eq_assume_false = {}", a, b, said, ua.eq_assume_false(&ub)));
+        }
+        if said && !same {
+            e.violation("units:q+q:mismatch-not-rejected", 1, || format!("{:?} + {:?} is not rejected: the unit equality check calls them equal", a, b));
+        }
+        if !same {
+            e.nontrivial += 1;
+        }
+        let (m, d) = (ua * ub, ua / ub);
+        if unit_exps(m) != (a.0 + b.0, a.1 + b.1) || unit_exps(d) != (a.0 - b.0, a.1 - b.1) {
+            e.violation("units:u*u:result-unit", 1, || format!("{:?} * or / {:?} gave {:?} / {:?}", a, b, unit_exps(m), unit_exps(d)));
+        }
+        if idx % 50_000_017 == 0 {
+            e.outcome(h64(&(a, b)));
+            e.sample(|| format!("{:?} vs {:?}", a, b));
+        }
+    });
+}
+
 pub fn axis(extended: bool) -> Vec<i32> {
     if extended {
         vec![-60, -31, -4, -3, -2, -1, 0, 1, 2, 3, 4, 31, 60]
@@ -557,5 +599,11 @@ pub fn run(ctx: &Ctx) -> Vec<Eng> {
         if ctx.thorough { "4080 x 4080 value pairs" } else { "2040 x 2040 value pairs" },
     );
     value_sweep(&mut e4, ctx.thorough, budget);
-    vec![e1, e2, e3, e4]
+    let mut e5 = Eng::new(
+        "c01-full-exponent-domain",
+        "EVERY ordered pair of units with exponents in [-60,60]^2 (14641^2 = 214 358 881 pairs): eq_assume_true / eq_assume_false agree with the exponents (so add, sub and ordering reject exactly the differing pairs), Unit*Unit and Unit/Unit add and subtract the exponents; non-trivial = the units differ",
+        "121^2 x 121^2 pairs",
+    );
+    full_domain(&mut e5, budget);
+    vec![e1, e2, e3, e4, e5]
 }
